@@ -281,6 +281,8 @@ var SymLimits = []int{16, 17, 64, 4095, 4096, 4097, 8192, 65536}
 func (x *Exec) Dial() *mem.Conn {
 	c := mem.NewConn(len(x.Conns)+1, x.Log)
 	c.QuietReads = true
+	// the kind of socket the server listens on makes no difference to the protocol
+	c.Net = []string{"", "unix", "tcp", "unix"}[I(x.Cfg, "_tlsvar")%4]
 	x.Conns = append(x.Conns, c)
 	x.Lis.Dial(c) //nolint
 	return c
